@@ -519,6 +519,19 @@ class _Expr(ast.NodeTransformer):
                 if ok:
                     self.changed = True
                     return ast.copy_location(ast.Tuple(elts=vals, ctx=ast.Load()), n)
+        # getattr(o, A if c else B)  ->  getattr(o, A) if c else getattr(o, B)      (o a plain operand; a name picked from a small table)
+        if isinstance(f, ast.Name) and f.id == "getattr" and len(n.args) == 2 and not n.keywords and isinstance(n.args[1], ast.IfExp) \
+                and isinstance(n.args[0], (ast.Name, ast.Attribute)) and not self.t._is_local("getattr"):
+            def dist(e_: ast.AST, depth_: int = 0) -> ast.AST:
+                if isinstance(e_, ast.IfExp) and depth_ < 12:
+                    return ast.IfExp(test=e_.test, body=dist(e_.body, depth_ + 1), orelse=dist(e_.orelse, depth_ + 1))
+                if isinstance(e_, ast.Constant) and e_.value is None:
+                    return ast.Constant(value=None)  # (reached only where the caller has already excluded "no name")
+                if isinstance(e_, ast.Constant) and isinstance(e_.value, str) and e_.value.isidentifier():
+                    return ast.Attribute(value=copy.deepcopy(n.args[0]), attr=e_.value, ctx=ast.Load())
+                return ast.Call(func=ast.Name(id="getattr", ctx=ast.Load()), args=[copy.deepcopy(n.args[0]), e_], keywords=[])
+            self.changed = True
+            return ast.copy_location(dist(n.args[1]), n)
         # format(x, SPEC)  ->  f"{x:SPEC}"     (SPEC a string constant or an f-string)
         if isinstance(f, ast.Name) and f.id == "format" and len(n.args) == 2 and not n.keywords and not self.t._is_local("format") \
                 and (isinstance(n.args[1], ast.JoinedStr) or (isinstance(n.args[1], ast.Constant) and isinstance(n.args[1].value, str))):
